@@ -86,10 +86,11 @@ CHECKS = {
     "C13": ("proof",
             "(A) Lean noOOB / index-range theorems for every modelled kernel: on every input the public spaces accept, the checked-accessor "
             "model returns `some` (decoders, tour length, EA/FEA move kernels incl. frequency-table indices, plan length, game mapping, QAP "
-            "objective, swap distance; all literal indices of translated controller/system kernels and of ALL generated ANN architectures). "
+            "objective, swap distance; all literal indices of translated controller/system kernels, of ALL generated ANN architectures, and of the six min-ANN "
+            "kernels (extracted from min_ann.py on every run into lean/Gen/MinAnnIdx.lean). "
             "(B/C) every stream of those properties is re-run in separate processes under NUMBA_BOUNDSCHECK=1 (own numba cache): an "
             "IndexError on a valid input is a violation with that input; model OOB <=> IndexError on the malformed streams.",
-            TB + "NUMBA_BOUNDSCHECK=1 only adds IndexError (numba); kernels of C02/C07/C10 join when their checks are integrated (see notes).",
+            TB + "NUMBA_BOUNDSCHECK=1 only adds IndexError (numba); min-ANN search loops are not modelled (no array access besides the extracted literals).",
             "Lean 4 proof (checked-accessor models return some) + bounds-checked differential re-run of all kernel streams", "6/C13"),
     "C18": ("proof",
             "18 Lean theorems: the four explicit-format walkers rebuild the prescribed matrix for every n (one generic index-state-machine "
